@@ -454,6 +454,8 @@ func c11(c *Ctx) (*report.Result, error) {
 			res.Undec("O11.5", "critical sections of the mux and client-connection packages", "", fmt.Sprintf("%d sections found", n))
 		}
 	}
+	res.RuleDoc["O11.6"] = "endpoint addresses are never reused while the manager lives (same analysis as O10.7): the session id is the table key, the gRPC endpoint address and the key its cleanup deletes - an id that repeats makes a replacement overwrite a live session, and that session's later cleanup removes the replacement"
+	checkSessionIDs(c, res, "O11.6")
 	return res, nil
 }
 
